@@ -171,6 +171,33 @@ def run(ctx, chk):
            a == b, detail="" if a == b else "nosse-only: %s | sse-only: %s" % (sorted(map(str, a - b))[:2], sorted(map(str, b - a))[:2]),
            key="R8.1s-sib escrypt_kdf guards differ")
 
+    # ---- R8.3 no silent narrowing of parsed numbers ------------------------------------------------------------
+    # a decimal parsed from a hash string into a wide integer may be narrowed to the 32-bit parameter only after
+    # it was shown to fit: otherwise "m=4294967304" decodes as m=8 and a corrupted string is treated as valid
+    ds = prog.need("argon2_decode_string", rule="R8.3")
+    n83 = 0
+    seen83 = set()
+    for p in cm.paths(prog, ds):
+        parsed = set()
+        for e in p.calls("decode_decimal"):
+            if len(e.args) > 1:
+                parsed.add(T.root(e.args[1]))
+        load_root = {e.res: T.root(e.addr) for e in p.events if e.kind == "load" and e.res is not None}
+        for e in p.stores():
+            v = e.val
+            if v[0] == "cast" and v[1] == "trunc" and any(load_root.get(l) in parsed for l in T.leaves(v[2])):
+                ok = True
+                iv = p.facts_before(e.idx).interval(v[2])
+                ok = iv is not None and iv[1] <= (1 << v[3]) - 1
+                if (e.iid, ok) in seen83:
+                    continue
+                seen83.add((e.iid, ok))
+                n83 += 1
+                chk.ob("R8.3", ds, "a parsed decimal is narrowed to %d bits only after it was shown to fit" % v[3], ok,
+                       loc=ds.loc(e.iid), detail="value range before narrowing: %s" % (iv,), path=None if ok else p,
+                       key="R8.3 argon2_decode_string unguarded-narrowing")
+    chk.floor("R8.3", "narrowing stores of parsed decimals in argon2_decode_string", n83, 4)
+
     # ---- R8.2 --------------------------------------------------------------------------------------
     spec = [
         # (function, decode steps [(callee, success)], number of compared parameters, requested-value roots)
